@@ -75,8 +75,18 @@ where
             prettify(dataset, &mut self.write, &self.config, "").map_err(SinkError)?;
         } else {
             let mut tf = TriGFormatter::new(&mut self.write);
-            rio_format_quads(&mut tf, source)?;
-            tf.finish().map_err(SinkError)?;
+            match rio_format_quads(&mut tf, source) {
+                Ok(()) => {
+                    tf.finish().map_err(SinkError)?;
+                }
+                Err(SourceError(e)) => {
+                    // the quads received so far have been consumed:
+                    // terminate their last statement (and graph) before reporting the source error
+                    let _ = tf.finish();
+                    return Err(SourceError(e));
+                }
+                Err(e) => return Err(e),
+            }
         }
         Ok(self)
     }
